@@ -100,14 +100,17 @@ def replay_orphan(cur, pkg):
 
 def ob_is_local(r, tier, seed):
     W = e2.fresh_world(CRATES); tt = W.tt; TY = tt.find_adt(['tast', 'Ty'], 'compiler')
-    r.bounds = 'current package in %s; type names `P::Item` with P in %s and the unqualified name `Item`; through is_local_nominal_type on TStruct / TEnum / TApp' % (NAMES, NAMES)
+    r.bounds = 'current package in %s; type names `P::Item` with P in %s and the unqualified name `Item`; through is_local_nominal_type on TStruct / TEnum / TApp, and on Vec / Ref / tuple of such a type and int32 (never local)' % (NAMES, NAMES)
     r.assumptions = ['oracle: a qualified name is local iff its package part equals the current package; an unqualified name is local iff the current package is Main or Builtin']
     def entry(ex):
         cur = ex.choose([(True, n) for n in NAMES]); pk = ex.choose([(True, n) for n in NAMES] + [(True, None)])
-        shape = ex.choose([(True, 'TStruct'), (True, 'TEnum'), (True, 'TApp')])
+        shape = ex.choose([(True, 'TStruct'), (True, 'TEnum'), (True, 'TApp'), (True, 'TVec'), (True, 'TRef'), (True, 'TTuple'), (True, 'TInt32')])
         name = (pk + '::Item') if pk else 'Item'
         t = Agg(TY.key, TY.vindex('TStruct' if shape != 'TEnum' else 'TEnum'), [mkstr(name)])
         if shape == 'TApp': t = Agg(TY.key, TY.vindex('TApp'), [mkbox(t), PyVec([Agg(TY.key, TY.vindex('TInt32'), [])])])
+        elif shape in ('TVec', 'TRef'): t = Agg(TY.key, TY.vindex(shape), [mkbox(t)])          # a builtin container of a (possibly local) type is not itself a local nominal type
+        elif shape == 'TTuple': t = Agg(TY.key, TY.vindex('TTuple'), [PyVec([t])])
+        elif shape == 'TInt32': t = Agg(TY.key, TY.vindex('TInt32'), [])
         h = {0: mkstr(cur), 1: t}
         res = ex.call('typer::toplevel::is_local_nominal_type', [Ref(h, 0), Ref(h, 1)])
         return cur, pk, shape, res
@@ -116,11 +119,11 @@ def ob_is_local(r, tier, seed):
         r.cases += 1
         if p.kind != 'ok': raise Unsupported('is_local_nominal_type panicked: %s' % p.value)
         cur, pk, shape, got = p.value
-        want = (pk == cur) if pk else cur in ('Main', 'Builtin')
+        want = ((pk == cur) if pk else cur in ('Main', 'Builtin')) and shape in ('TStruct', 'TEnum', 'TApp')
         r.nontrivial += 1
         if bool(got) != want and not r.findings:
             ok_, detail = True, 'value returned by the real function MIR'
-            if pk and pk not in ('Main', 'Builtin') and cur not in ('Main', 'Builtin'):
+            if pk and pk not in ('Main', 'Builtin') and cur not in ('Main', 'Builtin') and shape in ('TStruct', 'TEnum', 'TApp'):
                 try: ok_, detail = replay_orphan(cur, pk)
                 except Exception as e: ok_, detail = False, 'replay failed: ' + str(e)[:200]
             r.findings.append(Finding('locality-wrong', 'is_local_nominal_type(current package %s, %s `%s`) = %s, expected %s' % (cur, shape, (pk + '::Item') if pk else 'Item', got, want), {'current': cur, 'package': pk}, ok_, detail))
@@ -235,3 +238,48 @@ def ob_discovery_names(r, tier, seed):
 _obl_c16b = obligations_c16
 def obligations_c16():
     return _obl_c16b() + [Ob('O16.6-discovery-declared-names', 'discovery accepts a project iff every directory declares the package it is imported as', ob_discovery_names, ('quick', 'thorough'), 3, {})]
+
+# ----------------------------------------------------------------------------- O13.7 the files of a package are read in an order that does not depend on directory enumeration
+def ob_source_order(r, tier, seed):
+    import itertools
+    W = e2.fresh_world(CRATES)
+    names = ['b.gom', 'a.gom', 'c.gom', 'notes.txt']
+    r.bounds = 'a package directory holding %s; fs::read_dir yields the entries in every one of the %d possible orders (solver decision)' % (names, 24)
+    r.assumptions = ['fs::read_dir / DirEntry::path are environment stubs; paths are modelled as strings', 'oracle: read_gom_sources returns the same list for every enumeration order (and only the .gom files)']
+    perms = list(itertools.permutations(names))
+    def ov(f, g):
+        if g.endswith('fs::read_dir') or 'read_dir::<' in g or g == 'read_dir':
+            def m_read_dir(ex, f_, a):
+                order = ex.choose([(True, p_) for p_ in perms])
+                from mirsym.models import Iter
+                return ms.ok(Iter([ms.ok(Opaque('direntry', name=n)) for n in order]))
+            return m_read_dir
+        if g.endswith('Path::extension'):
+            def m_path_ext(ex, f_, a):
+                n = ms.pystr(ex.deref(a[0])); return ms.some(mkstr(n.rsplit('.', 1)[1])) if '.' in n else ms.NONE()
+            return m_path_ext
+        if g.endswith('DirEntry::path'):
+            def m_entry_path(ex, f_, a): return mkstr(ex.deref(a[0]).name)
+            return m_entry_path
+        return None
+    W.overrides = [ov]
+    def entry(ex):
+        h = {0: mkstr('dir')}
+        res = ex.call('pipeline::packages::read_gom_sources', [Ref(h, 0)])
+        if res.idx != 0: return ('err',)
+        return tuple(ms.pystr(ex.deref(x) if not isinstance(x, Str) else x) for x in res.fields[0].items)
+    res = e2.explore(r, W, entry, [])
+    outs = set()
+    for p in res:
+        r.cases += 1
+        if p.kind != 'ok': raise Unsupported('read_gom_sources panicked: %s' % p.value)
+        outs.add(p.value)
+    r.nontrivial = len(res)
+    if len(outs) > 1 or (outs and set(next(iter(outs))) != {'a.gom', 'b.gom', 'c.gom'}):
+        r.findings.append(Finding('source-order-depends-on-directory-enumeration', 'read_gom_sources returns %d different lists depending on the order in which the directory is enumerated, e.g. %s' % (len(outs), sorted(outs)[:2]), {'lists': [list(o) for o in sorted(outs)][:4]}, True,
+                                  'lists returned by the real read_gom_sources MIR for different enumeration orders (a CLI replay needs a file system whose readdir order can be controlled)'))
+    else: r.samples.append({'files': list(next(iter(outs)))})
+
+_obl_c13b = obligations_c13
+def obligations_c13():
+    return _obl_c13b() + [Ob('O13.7-source-file-order', 'read_gom_sources is independent of directory enumeration order', ob_source_order, ('quick', 'thorough'), 2, {})]
